@@ -120,6 +120,26 @@ def run(chk):
 
     # an equation whose dynamic loss declares a heterogeneous parameter: the residual is evaluated with that parameter
     # replaced by the value of the user's function at the row's point (the parameters "the equation is given")
+    # (first a map over the same keys that declares nothing - every entry None - : the equation gets the parameters as they are;
+    # evaluated before the maps that do declare a function, in the same interpreter state, so that anything remembered per set of
+    # keys shows in the obligations that follow)
+    for eq_type in ('ODE', 'statio_PDE', 'nonstatio_PDE'):
+        cfg = {"loss": eq_type, "net": "PINN", "residual_components": 2, "weight": "vector", "param_batch": [],
+               "heterogeneity_map": "{nu: None, th: None}"}
+        site = {"ODE": "jinns.loss._LossODE:LossODE.evaluate", "statio_PDE": "jinns.loss._LossPDE:LossPDEStatio.evaluate",
+                "nonstatio_PDE": "jinns.loss._LossPDE:LossPDENonStatio.evaluate"}[eq_type]
+
+        def go(eq_type=eq_type):
+            dyn = E.user_dynamic_loss(eq_type, 2, heterogeneity={'nu': None, 'th': None})
+            S = SingleLoss(E, eq_type, 'PINN', d=2, m_u=2, m_res=2, terms=('dyn',), wkind='vector', eq_keys=('nu', 'th'), dyn=dyn)
+            total, terms = S.evaluate()
+            found = canon(scalar_of(terms['dyn_loss'], 'dyn_loss'))
+            exp = canon(scalar_of(S.expected_dyn(()), 'spec'))
+            if found != exp:
+                raise Violation("dyn_loss", str(found), str(exp))
+            return f"dyn_loss = {found}"
+        chk.run("C03.R1", site + "->dynamic_loss_apply", cfg, go, construct="dyn_loss formula (heterogeneity map declaring nothing)")
+
     for eq_type in ('ODE', 'statio_PDE', 'nonstatio_PDE'):
         for pk, omit in (((), False), (('th',), False), ((), True)):
             cfg = {"loss": eq_type, "net": "PINN", "residual_components": 2, "weight": "vector", "param_batch": list(pk),
